@@ -37,8 +37,10 @@ class PolyphaseFilterbank(object):
         window_fn : str, optional
             Windowing function used for the PFB
         """
-        self.num_taps = num_taps
-        self.num_branches = num_branches
+        # Python integers: with numpy unsigned or narrow integers, -num_taps*num_branches and 
+        # num_taps*num_branches wrap around in the cache and window arithmetic
+        self.num_taps = int(num_taps)
+        self.num_branches = int(num_branches)
         self.window_fn = window_fn
         
         self.cache = None
